@@ -73,6 +73,12 @@ type ruleJSON struct {
 	Ctls   []string `json:"ctls,omitempty"` // auditEngine=On, auditLogParts=+E (value hex-free ASCII), ruleEngine=Off
 	Disr   string   `json:"disr"`           // pass | deny | drop | redirect
 	Status int      `json:"status,omitempty"`
+	// flow: chained rules (kinds of the links), skip:N, skipAfter:<marker>, and Disr may be allow / allow:phase / allow:request;
+	// Kind "marker" is `SecMarker m<Marker>`
+	Chain     []string `json:"chain,omitempty"`
+	Skip      int      `json:"skip,omitempty"`
+	SkipAfter int      `json:"skip_after,omitempty"` // marker number, 0 = none
+	Marker    int      `json:"marker,omitempty"`
 }
 
 type msgJSON struct {
@@ -133,11 +139,20 @@ type caseJSON struct {
 // ---- directive text ----
 
 func ruleText(r ruleJSON) string {
+	if r.Kind == "marker" {
+		return fmt.Sprintf("SecMarker m%d", r.Marker)
+	}
 	var acts []string
 	acts = append(acts, "id:"+strconv.Itoa(r.ID), "phase:"+strconv.Itoa(r.Phase))
 	acts = append(acts, r.Acts...)
 	for _, c := range r.Ctls {
 		acts = append(acts, "ctl:"+c)
+	}
+	if r.Skip > 0 {
+		acts = append(acts, "skip:"+strconv.Itoa(r.Skip))
+	}
+	if r.SkipAfter > 0 {
+		acts = append(acts, fmt.Sprintf("skipAfter:m%d", r.SkipAfter))
 	}
 	acts = append(acts, r.Disr)
 	if r.Disr == "redirect" {
@@ -146,15 +161,34 @@ func ruleText(r ruleJSON) string {
 	if r.Status != 0 {
 		acts = append(acts, "status:"+strconv.Itoa(r.Status))
 	}
+	if len(r.Chain) > 0 {
+		acts = append(acts, "chain")
+	}
 	al := strings.Join(acts, ",")
+	var b strings.Builder
 	switch r.Kind {
 	case "args":
-		return `SecRule ARGS_GET "@rx ." "` + al + `"`
+		b.WriteString(`SecRule ARGS_GET "@rx ." "` + al + `"`)
 	case "nomatch":
-		return `SecRule ARGS_GET:zzz "@rx ." "` + al + `"`
+		b.WriteString(`SecRule ARGS_GET:zzz "@rx ." "` + al + `"`)
 	default:
-		return `SecAction "` + al + `"`
+		b.WriteString(`SecAction "` + al + `"`)
 	}
+	for i, k := range r.Chain {
+		target := "REQUEST_METHOD"
+		switch k {
+		case "args":
+			target = "ARGS_GET"
+		case "nomatch":
+			target = "ARGS_GET:zzz"
+		}
+		la := "t:none"
+		if i+1 < len(r.Chain) {
+			la += ",chain"
+		}
+		b.WriteString("\n  SecRule " + target + ` "@rx ." "` + la + `"`)
+	}
+	return b.String()
 }
 
 func directives(c *caseJSON, target string) string {
@@ -356,16 +390,17 @@ func idOfALine(a string) string {
 }
 
 type runner struct {
-	cfg            vh.Config
-	res            *vh.Result
-	tmp            string
-	terms          []string
-	cases          []any
-	seen           map[string]bool
-	nontriv        int
-	nfile          int
-	ncap, capLimit int
-	quiet          bool
+	cfg              vh.Config
+	res              *vh.Result
+	tmp              string
+	terms            []string
+	cases            []any
+	seen             map[string]bool
+	nontriv          int
+	nfile            int
+	ncap, capLimit   int
+	quiet            bool
+	njdoc, jdocLimit int
 }
 
 func (rn *runner) dist(k string) {
@@ -463,22 +498,45 @@ func disrTerm(s string) string {
 	return "DPass"
 }
 
-func ruleTerm(r ruleJSON, nargs int) string {
-	nm := 1
-	switch r.Kind {
+func kindMatches(kind string, nargs int) int {
+	switch kind {
 	case "args":
-		nm = nargs
+		return nargs
 	case "nomatch":
-		nm = 0
+		return 0
 	}
-	var la, ct []string
+	return 1
+}
+
+func ruleTerm(r ruleJSON, nargs int) string {
+	if r.Kind == "marker" {
+		return fmt.Sprintf("(Build_rule 0 0 [] [] DPass 0 1%%nat [] 0%%nat None ANone (Some %d))", r.Marker)
+	}
+	var la, ct, ch []string
 	for _, a := range r.Acts {
 		la = append(la, logactTerm(a))
 	}
 	for _, c := range r.Ctls {
 		ct = append(ct, ctlTerm(c))
 	}
-	return fmt.Sprintf("(Build_rule %d %d %s %s %s %d %s)", r.ID, r.Phase, vh.List(la), vh.List(ct), disrTerm(r.Disr), r.Status, vh.Nat(nm))
+	for _, k := range r.Chain {
+		ch = append(ch, vh.Nat(kindMatches(k, nargs)))
+	}
+	after := "None"
+	if r.SkipAfter > 0 {
+		after = fmt.Sprintf("(Some %d)", r.SkipAfter)
+	}
+	allow := "ANone"
+	switch r.Disr {
+	case "allow":
+		allow = "AAll"
+	case "allow:phase":
+		allow = "APhase"
+	case "allow:request":
+		allow = "ARequest"
+	}
+	return fmt.Sprintf("(Build_rule %d %d %s %s %s %d %s %s %s %s %s None)", r.ID, r.Phase, vh.List(la), vh.List(ct), disrTerm(r.Disr), r.Status,
+		vh.Nat(kindMatches(r.Kind, nargs)), vh.List(ch), vh.Nat(r.Skip), after, allow)
 }
 
 func recTerm(r recJSON) string {
@@ -769,6 +827,10 @@ func (rn *runner) runOne(h *wafHandle, c *caseJSON) {
 			}
 			if c.Format == "json" {
 				rn.checkJSON(c, al, out)
+				if rn.njdoc < rn.jdocLimit && c.Kind == "tx" && len(al.Messages()) > 0 {
+					rn.njdoc++
+					rn.runJDoc(al, out, &caseJSON{Kind: "jdoc", Note: "captured from tx " + c.TxID, OutHex: hex.EncodeToString(out), Tx: c}, "jdoc|"+c.TxID)
+				}
 			} else {
 				rn.checkNativeShape(c, out, c.TxID)
 				if term, ok := nativeTerm(al, out); ok && rn.ncap < rn.capLimit && c.Kind == "tx" {
@@ -1170,6 +1232,119 @@ func (rn *runner) runSyntheticNative(seed int64, i int) {
 	rn.add(term, c, len(parts) > 0, "syn|"+strconv.Itoa(i))
 }
 
+// ---- JSON formatter: strings and record frame ----
+
+func (rn *runner) runJStr(str string) {
+	out, err := json.Marshal(str)
+	c := &caseJSON{Kind: "jstr", SHex: hex.EncodeToString([]byte(str)), OutHex: hex.EncodeToString(out)}
+	if err != nil {
+		rn.fail("c19-json-invalid", "json.Marshal of a string failed: "+err.Error(), c)
+		return
+	}
+	var back string
+	if err := json.Unmarshal(out, &back); err != nil {
+		rn.fail("c19-json-invalid", "json.Unmarshal of a marshalled string failed: "+err.Error(), c)
+		return
+	}
+	rn.res.OracleEvaluations++
+	if bytes.IndexByte(out, '\n') >= 0 {
+		rn.fail("c19-json-multiline", "marshalled string contains a raw newline", c)
+	}
+	rn.dist("jstr")
+	rn.add(fmt.Sprintf("CJStr %s %s %s", vh.HxS(str), vh.Hx(out), vh.HxS(back)), c, string(out) != `"`+str+`"`, "jstr|"+str)
+}
+
+func jmsgTerm(m plugintypes.AuditLogMessage) string {
+	data := "None"
+	if d := dataOf(m); d != nil {
+		tags := "None"
+		if d.Tags_ != nil {
+			tags = "(Some " + vh.HxList(d.Tags_) + ")"
+		}
+		data = fmt.Sprintf("(Some (Build_jdata %s %s %s %s %s %s %s %s %s %s %s %s))", vh.HxS(d.File_), vh.Z(int64(d.Line_)), vh.Z(int64(d.ID_)),
+			vh.HxS(d.Rev_), vh.HxS(d.Msg_), vh.HxS(d.Data_), vh.Z(int64(d.Severity_)), vh.HxS(d.Ver_), vh.Z(int64(d.Maturity_)), vh.Z(int64(d.Accuracy_)), tags, vh.HxS(d.Raw_))
+	}
+	return fmt.Sprintf("Build_jmsg %s %s %s %s", vh.HxS(m.Actionset()), vh.HxS(m.Message()), vh.HxS(errMessageOf(m)), data)
+}
+
+// jdocTerm: the record the real JSON formatter printed for al, against the modelled head and tail.
+func (rn *runner) runJDoc(al plugintypes.AuditLog, out []byte, c *caseJSON, key string) {
+	t := al.Transaction()
+	var ms []string
+	for _, m := range al.Messages() {
+		ms = append(ms, jmsgTerm(m))
+	}
+	head := fmt.Sprintf("(Build_jhead %s %s %s %s %s %s %s %s)", vh.HxS(t.Timestamp()), vh.Z(t.UnixTimestamp()), vh.HxS(t.ID()), vh.HxS(t.ClientIP()),
+		vh.Z(int64(t.ClientPort())), vh.HxS(t.HostIP()), vh.Z(int64(t.HostPort())), vh.HxS(t.ServerID()))
+	rn.dist("jdoc")
+	rn.add(fmt.Sprintf("CJDoc %s %s %s", head, vh.List(ms), vh.Hx(out)), c, true, key)
+}
+
+func advString(r *rand.Rand) string {
+	switch r.Intn(8) {
+	case 0:
+		return ""
+	case 1:
+		return pick(r, []string{"\"", "\\", "/", "<script>&", " x ", "\x00\x01\x1f\x7f", "\b\f\n\r\t", "é€😀", "\xff", "\xc3", "\xe2\x82", "\xed\xa0\x80", "\xf4\x90\x80\x80", "\xc0\xaf", "\xef\xbf\xbd", "a\",\"messages\":[", "\\u0041", "\\\""})
+	default:
+		alpha := "ab \"\\/<>&\n\r\t\b\f\x00\x1f\x7f{}[],:"
+		n := r.Intn(12)
+		b := make([]byte, 0, n+4)
+		for i := 0; i < n; i++ {
+			switch r.Intn(6) {
+			case 0:
+				b = append(b, byte(r.Intn(256)))
+			case 1:
+				b = append(b, []byte(string(rune(r.Intn(0x11000))))...)
+			default:
+				b = append(b, alpha[r.Intn(len(alpha))])
+			}
+		}
+		return string(b)
+	}
+}
+
+func (rn *runner) runSyntheticJSON(seed int64, i int) {
+	r := rand.New(rand.NewSource(seed))
+	f, err := auditlog.GetFormatter("json")
+	if err != nil {
+		return
+	}
+	lg := &auditlog.Log{Parts_: types.AuditLogParts("ABCFHKZ")}
+	lg.Transaction_ = auditlog.Transaction{
+		Timestamp_: "2026/01/02 03:04:05" + advString(r), UnixTimestamp_: r.Int63n(1 << 50), ID_: "j" + strconv.Itoa(i) + advString(r),
+		ClientIP_: advString(r), ClientPort_: r.Intn(70000), HostIP_: advString(r), HostPort_: r.Intn(3) * 443, ServerID_: advString(r),
+		Request_: &auditlog.TransactionRequest{Method_: "GET", URI_: "/" + advString(r), Protocol_: "HTTP/1.1", Body_: advString(r)},
+	}
+	nm := r.Intn(4)
+	for j := 0; j < nm; j++ {
+		m := auditlog.Message{Actionset_: advString(r), Message_: advString(r), ErrorMessage_: advString(r)}
+		if r.Intn(4) != 0 {
+			d := &auditlog.MessageData{File_: advString(r), Line_: r.Intn(5000), ID_: r.Intn(1000000), Rev_: advString(r), Msg_: advString(r), Data_: advString(r),
+				Severity_: types.RuleSeverity(r.Intn(9) - 1), Ver_: advString(r), Maturity_: r.Intn(10), Accuracy_: r.Intn(10), Raw_: "SecAction \"id:1\"" + advString(r)}
+			switch r.Intn(3) {
+			case 0:
+				d.Tags_ = []string{}
+			case 1:
+				d.Tags_ = []string{advString(r), "attack-sqli", advString(r)}
+			}
+			m.Data_ = d
+		}
+		lg.Messages_ = append(lg.Messages_, m)
+	}
+	out, err := f.Format(lg)
+	c := &caseJSON{Kind: "jdoc", Note: "synthetic", OutHex: hex.EncodeToString(out), SynSeed: seed, SynIdx: i}
+	if err != nil {
+		rn.fail("c19-format-error", "JSON formatter returned an error: "+err.Error(), c)
+		return
+	}
+	rn.res.OracleEvaluations++
+	if !json.Valid(out) || bytes.IndexByte(out, '\n') >= 0 {
+		rn.fail("c19-json-invalid", "JSON record of a synthetic log is not one valid JSON line", c)
+	}
+	rn.runJDoc(lg, out, c, "jdoc|"+strconv.Itoa(i))
+}
+
 // ---- generator ----
 
 var patterns = []string{"", "", "^403$", "^(?:5|4(?:0[34]))", "^[45]", "^$", "^302$", "^0$", "200", "^5"}
@@ -1235,7 +1410,25 @@ func genTx(r *rand.Rand, i int) *caseJSON {
 				ru.Disr = "redirect"
 				ru.Status = pick(r, []int{0, 301, 302, 307, 308, 403})
 			}
+			if ru.Disr == "pass" && r.Intn(6) == 0 {
+				ru.Disr = pick(r, []string{"allow", "allow:phase", "allow:request"})
+			}
+			switch r.Intn(10) {
+			case 0:
+				ru.Skip = 1 + r.Intn(2)
+			case 1:
+				ru.SkipAfter = 1 + r.Intn(2)
+			}
+			if r.Intn(5) == 0 {
+				n := 1 + r.Intn(2)
+				for k := 0; k < n; k++ {
+					ru.Chain = append(ru.Chain, pick(r, []string{"action", "args", "args", "nomatch"}))
+				}
+			}
 			c.Rules = append(c.Rules, ru)
+			if r.Intn(6) == 0 {
+				c.Rules = append(c.Rules, ruleJSON{Kind: "marker", Marker: 1 + r.Intn(2)})
+			}
 		}
 	}
 	if c.Format == "native" && r.Intn(3) == 0 {
@@ -1520,6 +1713,17 @@ func (rn *runner) runDoc(doc []byte) error {
 		if err == nil {
 			rn.fail("c19-config-accepted", "configuration accepted although it must be rejected: "+c.Directives, c)
 		}
+	case "jstr":
+		b, _ := hex.DecodeString(c.SHex)
+		rn.runJStr(string(b))
+	case "jdoc":
+		switch {
+		case c.Tx != nil:
+			rn.jdocLimit = 1 << 30
+			rn.runTx(c.Tx)
+		case c.SynSeed != 0:
+			rn.runSyntheticJSON(c.SynSeed, c.SynIdx)
+		}
 	case "native", "file":
 		switch {
 		case c.Tx != nil:
@@ -1542,14 +1746,14 @@ func Run(cfg vh.Config) (*vh.Result, error) {
 		return nil, err
 	}
 	defer os.RemoveAll(tmp)
-	rn := &runner{cfg: cfg, res: res, tmp: tmp, seen: map[string]bool{}, capLimit: cfg.Pick(50, 800)}
+	rn := &runner{cfg: cfg, res: res, tmp: tmp, seen: map[string]bool{}, capLimit: cfg.Pick(50, 800), jdocLimit: cfg.Pick(40, 600)}
 	rng := vh.Rng(cfg.Seed, "c19")
 
 	flush := func(name string) error {
 		if len(rn.terms) == 0 {
 			return nil
 		}
-		si, err := vh.WriteShard(cfg.OutDir, vh.Shard{Name: name, Imports: "From Verif Require Import Base Audit CorrC19.",
+		si, err := vh.WriteShard(cfg.OutDir, vh.Shard{Name: name, Imports: "From Verif Require Import Base Audit AuditJson CorrC19.",
 			CaseType: "CorrC19.case", MismatchF: "CorrC19.mismatches", Terms: rn.terms, Cases: rn.cases})
 		if err != nil {
 			return err
@@ -1651,6 +1855,26 @@ func Run(cfg vh.Config) (*vh.Result, error) {
 			}
 			shard++
 		}
+	}
+	nJ := cfg.Pick(600, 8000)
+	for i := 0; i < nJ; i++ {
+		rn.runJStr(advString(rng))
+	}
+	for b := 0; b < 256; b++ { // every single byte, and every byte after a lead byte
+		rn.runJStr(string([]byte{byte(b)}))
+		rn.runJStr(string([]byte{0xe2, 0x80, byte(b)}))
+	}
+	nJD := cfg.Pick(60, 1000)
+	for i := 0; i < nJD; i++ {
+		rn.runSyntheticJSON(cfg.Seed*1000003+int64(i)*104729+23, i)
+		if len(rn.terms) >= 2000 {
+			if err := flush(fmt.Sprintf("C19_j%d", i)); err != nil {
+				return nil, err
+			}
+		}
+	}
+	if err := flush("C19_j"); err != nil {
+		return nil, err
 	}
 	rn.concurrencyOracle(3, 6, 4) // small run: its file also goes through the model's line reader
 	rn.concurrencyOracle(cfg.Pick(16, 32), cfg.Pick(60, 150), 900)
